@@ -27,7 +27,7 @@ RULE = ('Hypothesis: Message (18 types), MetaMessage (all known types) and Unkno
         'least one override or post-copy assignment; distinct by (value, overrides).')
 ASSUMPTIONS = ['UnknownMetaMessage performs no validation at all, so only valid overrides are generated for it']
 
-OKEXC = (ValueError, TypeError, AttributeError)
+OKEXC = (ValueError, TypeError, AttributeError, BytesWarning)   # (BytesWarning: bytes value vs str under python -bb)
 FROZEN_OF = {mido.Message: FrozenMessage, mido.MetaMessage: FrozenMetaMessage,
              mido.UnknownMetaMessage: FrozenUnknownMetaMessage}
 
@@ -46,6 +46,9 @@ def fresh(d, ov):
 
 def snap(m):
     return {k: (v, type(v)) for k, v in vars(m).items()}
+
+
+ALIVE = []       # frozen messages of earlier cases stay referenced (an interning table keyed by hash would hand them out)
 
 
 def other_routes(d, m):
@@ -139,6 +142,20 @@ def check_case(case):
         out.append(fail('freeze-class', f'freeze({cls.__name__}) -> {type(fz).__name__}', **facts))
     if not (fz == m) or not (m == fz) or fz is m:
         out.append(fail('freeze-equal', f'freeze({m!r}) -> {fz!r}', **facts))
+    if len(ALIVE) < 20000:
+        ALIVE.append(fz)
+    # neighbours whose hashes collide in CPython (hash(-1) == hash(-2)) are different messages
+    for attr in ('pitch', 'time'):
+        if attr in d and d[attr] in (-1, -2) and t != 'unknown_meta':
+            try:
+                twin = build({**d, attr: -3 - d[attr]}, seq_list)
+                ftwin = freeze_message(twin)
+                ALIVE.append(ftwin)
+                if ftwin == fz or not (ftwin == twin) or len({fz: 1, ftwin: 2}) != 2 or {fz: 1, ftwin: 2}[fz] != 1:
+                    out.append(fail('freeze-equal', f'{attr}=-1 and {attr}=-2 are confused after freezing: {fz!r} / {ftwin!r}',
+                                    **facts))
+            except OKEXC:
+                pass
     if freeze_message(fz) is not fz:
         out.append(fail('freeze-idempotent', 'freeze(frozen) is not the same object', **facts))
     try:
@@ -194,6 +211,16 @@ def check_case(case):
         for route, other in other_routes(d, m):
             if not (other == m):
                 continue            # route did not give an equal message (other properties judge that)
+            if t != 'unknown_meta':
+                try:
+                    same_type = ''.join(list(other.type))        # an equal string that is a different object
+                    c3 = other.copy(type=same_type, time=other.time)
+                    if not (c3 == other) or type(c3) is not type(other):
+                        out.append(fail('copy-override', f'copy(type=<same type>) of a message from route {route} -> {c3!r}',
+                                        route=route, **facts))
+                except Exception as exc:  # noqa: BLE001
+                    out.append(fail('copy-override-raises', f'copy(type={other.type!r}) of a message from route {route}: '
+                                                            f'{exc!r}', route=route, exc=exc_sig(exc), **facts))
             fo = freeze_message(other)
             try:
                 if hash(fo) != h:
